@@ -396,18 +396,40 @@ fn check_mapping_empty(
     let diff_idx = v_p_idx.diff(&v_n_idx)?;
     if !diff_idx.is_empty(ctx)? {
         let mut new_pos = (*pos).clone();
-        // Update indexed_properties value
-        // We need to preserve the key type of pos
-        let key_type = if let Some(idx) = &pos.indexed_properties {
-            idx.key.clone()
-        } else {
-            Rc::new(SemTypeContext::unknown())
-        };
+        match &pos.indexed_properties {
+            Some(idx) if idx.key.is_all_strings() => {
+                // An object may carry any number of extra keys. The values that escape `current_neg`
+                // are taken by one more key, which no remaining negative mentions, and the index
+                // signature stays as it is: narrowing the whole signature would forget the objects
+                // that escape two negatives through two different keys
+                // ({[k: string]: A | B} is not covered by {[k: string]: A} | {[k: string]: B}).
+                let mut n = 0usize;
+                let fresh = loop {
+                    let candidate = format!("\u{0}extra{n}");
+                    if !pos.vs.contains_key(&candidate)
+                        && !rest_negs.iter().any(|it| it.vs.contains_key(&candidate))
+                    {
+                        break candidate;
+                    }
+                    n += 1;
+                };
+                new_pos.vs.insert(fresh, diff_idx);
+            }
+            _ => {
+                // Update indexed_properties value
+                // We need to preserve the key type of pos
+                let key_type = if let Some(idx) = &pos.indexed_properties {
+                    idx.key.clone()
+                } else {
+                    Rc::new(SemTypeContext::unknown())
+                };
 
-        new_pos.indexed_properties = Some(IndexedPropertiesAtomic {
-            key: key_type,
-            value: diff_idx,
-        });
+                new_pos.indexed_properties = Some(IndexedPropertiesAtomic {
+                    key: key_type,
+                    value: diff_idx,
+                });
+            }
+        }
 
         if !check_mapping_empty(Rc::new(new_pos), rest_negs, ctx, is_map)? {
             return Ok(false);
